@@ -426,6 +426,20 @@ Theorem C15_edited_roundtrip_merged_model_facts : forall init ops k s,
   pipeline_parse (show_doc s) = OOk ([], norm_doc (doc_of_store s)).
 Proof. exact edited_roundtrip_m_reachable_model_facts. Qed.
 
+(** the same for histories given by their strings ([map with_model_facts ops]: the facts of every call
+    are recomputed by the model of the parser): no hypothesis about facts at all *)
+Theorem C15_printable_reachable_strings : forall ops w,
+  WPrintable w -> forallb (fun o => negb (KnownFacts o)) ops = true -> WPrintable (run w (map with_model_facts ops)).
+Proof. exact printable_reachable_strings. Qed.
+
+Theorem C15_edited_roundtrip_strings : forall init ops k s,
+  WInv2 init -> WLex15 init -> forallb (fun o => negb (KnownFacts o)) ops = true ->
+  doc_at (run init (map with_model_facts ops)) k = Some s -> Known15m s = false ->
+  pipeline_parse (show_doc s) = OOk ([], norm_doc (doc_of_store s)).
+Proof.
+  intros init ops k s I2 L K. apply C15_edited_roundtrip_merged_model_facts; try assumption; [apply map_model_facts | rewrite known_map; exact K].
+Qed.
+
 (** the history of [C15_roundtrip_example] given by strings only: the comment "c", the PI
     ("q", "z"), the element "n", set_attribute(n, "k", "v&#x41;&e;"), the CDATA section "<&" --
     the facts are computed by the model of the parser, the final store is the same [rt_store] *)
@@ -477,3 +491,5 @@ Print Assumptions C15_printable_reachable_model_facts.
 Print Assumptions C15_lex15_reachable_model_facts.
 Print Assumptions C15_edited_roundtrip_model_facts.
 Print Assumptions C15_edited_roundtrip_merged_model_facts.
+Print Assumptions C15_printable_reachable_strings.
+Print Assumptions C15_edited_roundtrip_strings.
